@@ -29,6 +29,21 @@ from contextlib import redirect_stdout
 def _apply(src_root, dst_root, mutant):
     shutil.copytree(os.path.join(src_root, "productmd"), os.path.join(dst_root, "productmd"),
                     ignore=shutil.ignore_patterns("__pycache__"))
+    if mutant.get("patch"):
+        import subprocess
+        p = subprocess.run(["patch", "-p1", "-s", "--no-backup-if-mismatch", "-i", mutant["patch"]], cwd=dst_root,
+                           stdout=subprocess.PIPE, stderr=subprocess.STDOUT, text=True)
+        if p.returncode != 0:
+            return "seeded patch no longer applies: %s" % p.stdout.strip().splitlines()[-1:]
+        for root, dirs, files in os.walk(os.path.join(dst_root, "productmd")):
+            for fn in files:
+                if fn.endswith(".py"):
+                    fp = os.path.join(root, fn)
+                    try:
+                        compile(open(fp).read(), fp, "exec")
+                    except SyntaxError as e:
+                        return "seeded tree does not compile: %s" % e
+        return None
     for (fname, old, new) in mutant["edits"]:
         p = os.path.join(dst_root, "productmd", fname)
         with open(p) as f:
@@ -69,10 +84,34 @@ def run_mutant(args):
         shutil.rmtree(tmp, ignore_errors=True)
 
 
+def seeded_mutants():
+    """the independently produced seeded changes stored under /verif/seeded/<id>/ (patch.diff + meta.json): each must be
+    detected by the checks recorded in meta.json 'detected_by' when it was confirmed"""
+    here = os.path.dirname(os.path.dirname(os.path.abspath(__file__)))
+    sd = os.path.join(here, "seeded")
+    out = []
+    if not os.path.isdir(sd):
+        return out
+    for name in sorted(os.listdir(sd)):
+        meta = os.path.join(sd, name, "meta.json")
+        patch = os.path.join(sd, name, "patch.diff")
+        if not (os.path.exists(meta) and os.path.exists(patch)):
+            continue
+        with open(meta) as f:
+            m = json.load(f)
+        props = m.get("detected_by") or []
+        if not props:
+            continue
+        out.append({"id": "seed:" + name, "kind": "fire", "props": props, "what": m.get("summary", "")[:120],
+                    "edits": [], "patch": patch})
+    return out
+
+
 def selftest(repo="/repo", props=None, kind=None, jobs=None, only=None, verbose=True):
     from .mutants import MUTANTS
     from .rules import REGISTRY
     allprops = sorted(REGISTRY)
+    MUTANTS = list(MUTANTS) + seeded_mutants()
     tasks = []
     for m in MUTANTS:
         if only and m["id"] not in only:
